@@ -359,8 +359,9 @@ def finish(ctx, n_theorems_expected=None):
         'wall_s': round(time.time() - ctx.t0, 2),
         'violations': len(ctx.violations) + (1 if (rc == 1 and not ctx.violations) else 0),
     }
-    os.makedirs(os.path.join(VERIF, 'evidence'), exist_ok=True)
-    json.dump(ev, open(os.path.join(VERIF, 'evidence', f'{ctx.prop}.json'), 'w'), indent=1, default=repr)
+    evdir = os.environ.get('VERIF_EVIDENCE_DIR') or os.path.join(VERIF, 'evidence')   # scratch dir when testing mutants
+    os.makedirs(evdir, exist_ok=True)
+    json.dump(ev, open(os.path.join(evdir, f'{ctx.prop}.json'), 'w'), indent=1, default=repr)
     print(f'{ctx.prop} tier={ctx.tier} seed={ctx.seed}: theorems {len(discharged)}/{len(prop_thms)} '
           f'cases={cov["evaluations"]} distinct={cov["distinct_nontrivial"]} disagreements={len(ctx.disagreements)} '
           f'violations={len(ctx.violations)} known={len(ctx.known_hits)} wall={ev["wall_s"]}s rc={rc}')
